@@ -98,7 +98,7 @@ def one_run(ctx, p, decisions=None, rng=None, items=None, tag="random"):
 
 
 def flush(ctx, items):
-    res = sc.compare_batch(ctx, [(p, ctl, dr, pre) for (p, ctl, dr, pre, _) in items])
+    res = sc.compare_batch(ctx, [(p, ctl, dr, pre) for (p, ctl, dr, pre, _) in items])  # request built now
     for (p, ctl, dr, pre, case), d in zip(items, res):
         if d:
             ctx.mismatch("scheduler trace differs from SchedCore at event %d" % d[0],
